@@ -27,6 +27,8 @@ import (
 	"os"
 	"path/filepath"
 	"runtime"
+	"runtime/debug"
+	"runtime/pprof"
 	"sort"
 	"strconv"
 	"strings"
@@ -73,6 +75,13 @@ type Event struct {
 	FetchFail bool     `json:"fetch_fail,omitempty"`
 	BodyHex   string   `json:"body_hex"` // hex of the raw bytes the topology URL returns
 	Note      string   `json:"note,omitempty"`
+	// a LARGE body is not spelled out: it is rebuilt from this description (big.go); BodyHex is empty then
+	Big *BigSpec `json:"big,omitempty"`
+	// the response body hands out its first FirstRead bytes without ever crossing that offset in one
+	// Read call (a reader that takes what one Read returns sees exactly the first part)
+	FirstRead int `json:"first_read,omitempty"`
+	// what the URL serves from the second Get of this event on (hex of the bytes); "" = the same body
+	SecondBody string `json:"second_body,omitempty"`
 }
 
 type Case struct {
@@ -85,14 +94,14 @@ type Case struct {
 	// refresh: the relayer starts without a topology file, as app.go does: the initial topology is
 	// what the (long-lived) provider returns for the unchecked start-up call NetworkTopology("") when
 	// the URL serves these bytes (hex); they encode Topo
-	StartBody string `json:"start_body,omitempty"`
-	Remote      int      `json:"remote,omitempty"`
-	ClaimKey    string   `json:"claim_key,omitempty"`
-	ClaimVal    string   `json:"claim_val,omitempty"` // raw JSON value
-	ClaimFirst  bool     `json:"claim_first,omitempty"`
-	Members     []int    `json:"members,omitempty"` // hosts: which of the three real hosts are in the topology
-	Dialer      int      `json:"dialer,omitempty"`
-	Target      int      `json:"target,omitempty"`
+	StartBody  string `json:"start_body,omitempty"`
+	Remote     int    `json:"remote,omitempty"`
+	ClaimKey   string `json:"claim_key,omitempty"`
+	ClaimVal   string `json:"claim_val,omitempty"` // raw JSON value
+	ClaimFirst bool   `json:"claim_first,omitempty"`
+	Members    []int  `json:"members,omitempty"` // hosts: which of the three real hosts are in the topology
+	Dialer     int    `json:"dialer,omitempty"`
+	Target     int    `json:"target,omitempty"`
 }
 
 type PeerObs struct {
@@ -115,12 +124,19 @@ type StepObs struct {
 	Panic  string   `json:"panic,omitempty"`
 	View   View     `json:"view"`
 	Oracle *TopoObs `json:"expected_topology"` // reference decrypt+parse of the fetched body
+	// large bodies: what the Coq side gets instead of the body, and the reference SHA-256 of the
+	// served ciphertext (Go standard library over ALL served bytes)
+	StandIn string `json:"stand_in,omitempty"`
+	Digest  string `json:"served_sha256,omitempty"`
+	Gets    int    `json:"gets,omitempty"`
 }
 type ProvObs struct {
-	Code   int      `json:"code"` // 0 topology, 1 error, 2 panic
-	Panic  string   `json:"panic,omitempty"`
-	Topo   *TopoObs `json:"topo,omitempty"`
-	Oracle *TopoObs `json:"expected_topology,omitempty"`
+	Code    int      `json:"code"` // 0 topology, 1 error, 2 panic
+	Panic   string   `json:"panic,omitempty"`
+	Topo    *TopoObs `json:"topo,omitempty"`
+	Oracle  *TopoObs `json:"expected_topology,omitempty"`
+	StandIn string   `json:"stand_in,omitempty"`
+	Digest  string   `json:"served_sha256,omitempty"`
 }
 type Obs struct {
 	Calls     []ProvObs `json:"calls,omitempty"`
@@ -132,6 +148,8 @@ type Obs struct {
 	Panic     string    `json:"panic,omitempty"`
 	Topo      *TopoObs  `json:"topo,omitempty"`
 	Oracle    *TopoObs  `json:"expected_topology,omitempty"`
+	StandIn   string    `json:"stand_in,omitempty"`
+	Digest    string    `json:"served_sha256,omitempty"`
 	Delivered bool      `json:"delivered,omitempty"`
 	From      string    `json:"from,omitempty"`
 	Connected bool      `json:"connected,omitempty"`
@@ -244,15 +262,93 @@ func expected(body []byte) *TopoObs {
 // ---- fakes ------------------------------------------------------------------------------------------
 
 type fetcher struct {
-	body []byte
-	fail bool
+	body   []byte
+	fail   bool
+	first  int    // the body's first part is handed out without crossing this offset in one Read
+	second []byte // served from the second Get on (nil = the same body)
+	gets   int
+}
+
+// serve sets what the URL returns for the event
+func (f *fetcher) serve(ev Event, body []byte) {
+	f.body, f.fail, f.first, f.second, f.gets = body, ev.FetchFail, ev.FirstRead, nil, 0
+	if ev.SecondBody != "" {
+		b, err := hex.DecodeString(ev.SecondBody)
+		if err != nil {
+			panic("case second_body is not hex")
+		}
+		f.second = b
+	}
+}
+
+// partReader never crosses offset `first` within one Read call
+type partReader struct {
+	b     []byte
+	first int
+}
+
+func (p *partReader) Read(q []byte) (int, error) {
+	if len(p.b) == 0 {
+		return 0, io.EOF
+	}
+	n := len(p.b)
+	if n > len(q) {
+		n = len(q)
+	}
+	if p.first > 0 {
+		if n > p.first {
+			n = p.first
+		}
+		p.first -= n
+	}
+	copy(q, p.b[:n])
+	p.b = p.b[n:]
+	return n, nil
 }
 
 func (f *fetcher) Get(url string) (*http.Response, error) {
 	if f.fail {
 		return &http.Response{}, errors.New("fetch failed")
 	}
-	return &http.Response{Body: io.NopCloser(bytes.NewReader(f.body))}, nil
+	f.gets++
+	b := f.body
+	if f.gets > 1 && f.second != nil {
+		b = f.second
+	}
+	var rd io.Reader = bytes.NewReader(b)
+	if f.first > 0 && f.first < len(b) {
+		rd = &partReader{b: b, first: f.first}
+	}
+	return &http.Response{Status: "200 OK", StatusCode: 200, Proto: "HTTP/1.1", ProtoMajor: 1, ProtoMinor: 1,
+		Header: http.Header{}, ContentLength: int64(len(b)), Body: io.NopCloser(rd)}, nil
+}
+
+// the bytes the URL serves for an event
+func eventBody(ev Event) []byte {
+	if ev.Big != nil {
+		return buildBig(ev.Big).body
+	}
+	body, err := hex.DecodeString(ev.BodyHex)
+	if err != nil {
+		panic("case body_hex is not hex")
+	}
+	return body
+}
+
+// standIn: what the Coq side is shown of a LARGE served body (the kernel neither decodes nor hashes
+// megabytes): the reference SHA-256 (Go standard library) of the ciphertext the WHOLE served body
+// stands for, as 64 hex digits - the stand-in ciphertext is the digest itself -, or a non-hex text
+// when the served body is not hex.
+func standIn(body []byte) (sur string, digest string) {
+	ct, err := hex.DecodeString(strings.TrimSuffix(string(body), "\n"))
+	if err != nil {
+		return "not-hex:" + sha(body)[:16], ""
+	}
+	if len(ct) < 2*aes.BlockSize {
+		panic("stand-ins are for large bodies only")
+	}
+	d := sha(ct)
+	return d, d
 }
 
 type listener struct{ hashes []string }
@@ -392,12 +488,13 @@ func runRefresh(c Case) Obs {
 	iv := takeView(store, cg, h)
 	o := Obs{Init: &iv, StartNote: startNote}
 	for _, ev := range c.Events {
-		body, err := hex.DecodeString(ev.BodyHex)
-		if err != nil {
-			panic("case body_hex is not hex")
-		}
-		f.body, f.fail, l.hashes = body, ev.FetchFail, ev.Hashes
+		body := eventBody(ev)
+		f.serve(ev, body)
+		l.hashes = ev.Hashes
 		so := StepObs{Oracle: expected(body)}
+		if ev.Big != nil {
+			so.StandIn, so.Digest = standIn(body)
+		}
 		func() {
 			defer func() {
 				if r := recover(); r != nil {
@@ -409,6 +506,8 @@ func runRefresh(c Case) Obs {
 			}
 		}()
 		so.View = takeView(store, cg, h)
+		so.Gets = f.gets
+		f.body = nil
 		o.Steps = append(o.Steps, so)
 	}
 	return o
@@ -433,15 +532,17 @@ func run(c Case) Obs {
 		return runRefresh(c)
 	case "prov":
 		ev := c.Events[0]
-		body, err := hex.DecodeString(ev.BodyHex)
-		if err != nil {
-			panic("case body_hex is not hex")
-		}
-		prov, err := topology.NewNetworkTopologyProvider(relayer.TopologyConfiguration{Url: "u", EncryptionKey: aesKey}, &fetcher{body: body, fail: ev.FetchFail})
+		body := eventBody(ev)
+		f := &fetcher{}
+		f.serve(ev, body)
+		prov, err := topology.NewNetworkTopologyProvider(relayer.TopologyConfiguration{Url: "u", EncryptionKey: aesKey}, f)
 		if err != nil {
 			panic(err)
 		}
 		o := Obs{Oracle: expected(body)}
+		if ev.Big != nil {
+			o.StandIn, o.Digest = standIn(body)
+		}
 		func() {
 			defer func() {
 				if r := recover(); r != nil {
@@ -465,12 +566,12 @@ func run(c Case) Obs {
 		}
 		o := Obs{}
 		for _, ev := range c.Events {
-			body, err := hex.DecodeString(ev.BodyHex)
-			if err != nil {
-				panic("case body_hex is not hex")
-			}
-			f.body, f.fail = body, ev.FetchFail
+			body := eventBody(ev)
+			f.serve(ev, body)
 			po := ProvObs{Oracle: expected(body)}
+			if ev.Big != nil {
+				po.StandIn, po.Digest = standIn(body)
+			}
 			func() {
 				defer func() {
 					if r := recover(); r != nil {
@@ -995,7 +1096,7 @@ var catPool []Event
 
 func gen(r *vgen.Rng, tier string) []Case {
 	var out []Case
-	nseq, nprov, nhist, npseq := 70, 30, 80, 30
+	nseq, nprov, nhist, npseq := 58, 28, 68, 28
 	if tier == "thorough" {
 		nseq, nprov, nhist, npseq = 3000, 1000, 3000, 1000
 	}
@@ -1012,12 +1113,15 @@ func gen(r *vgen.Rng, tier string) []Case {
 				catPool = append(catPool, ev)
 			}
 		}
-		for i := 0; i < len(cat); i += 5 {
-			j := i + 5
-			if j > len(cat) {
-				j = len(cat)
+		// sequences of five, taken with a stride (neighbouring items are of similar size: a sequence
+		// of the five largest would be one very slow case)
+		nseqs := (len(cat) + 4) / 5
+		for i := 0; i < nseqs; i++ {
+			c := Case{Kind: "refresh", Topo: genTopo(r, 1)}
+			for j := i; j < len(cat); j += nseqs {
+				c.Events = append(c.Events, cat[j])
 			}
-			catCases = append(catCases, Case{Kind: "refresh", Topo: genTopo(r, 1), Events: append([]Event{}, cat[i:j]...)})
+			catCases = append(catCases, c)
 		}
 		off := r.Intn(3)
 		for i, ev := range cat {
@@ -1109,17 +1213,51 @@ func gen(r *vgen.Rng, tier string) []Case {
 	for i := 0; i < npseq; i++ {
 		out = append(out, genProvSeq(r))
 	}
-	// the catalogue cases are spread evenly over the list (the shards are evaluated in parallel)
-	var mixed []Case
-	step := len(out)/len(catCases) + 1
-	for i, c := range out {
-		if i%step == 0 && len(catCases) > 0 {
-			mixed = append(mixed, catCases[0])
-			catCases = catCases[1:]
+	// what is hash-checked must be all that was served (big.go): bodies that end a valid announced
+	// ciphertext exactly on a boundary and go on; two-part bodies; a URL that serves something else
+	// on a second Get; degenerate announced topologies (file and gate must agree afterwards)
+	out = append(out, genBig(r, tier)...)
+	out = append(out, genParts(r)...)
+	out = append(out, genDegenerate(r)...)
+	// the shards are evaluated in parallel: the cases are dealt out so that every shard gets about
+	// the same number of kernel-hashed bytes (the order of the cases carries no meaning)
+	return balance(append(out, catCases...), shardSize)
+}
+
+const shardSize = 28
+
+// what a case costs the kernel: SHA-256 and hex decoding of every spelled-out body
+func kernelCost(c Case) int {
+	n := 300
+	for _, ev := range c.Events {
+		n += 200
+		if ev.Big == nil {
+			n += len(ev.BodyHex) / 2
 		}
-		mixed = append(mixed, c)
 	}
-	return append(mixed, catCases...)
+	return n + len(c.StartBody)/2
+}
+
+func balance(cases []Case, shard int) []Case {
+	k := (len(cases) + shard - 1) / shard
+	idx := make([]int, len(cases))
+	for i := range idx {
+		idx[i] = i
+	}
+	sort.SliceStable(idx, func(a, b int) bool { return kernelCost(cases[idx[a]]) > kernelCost(cases[idx[b]]) })
+	bins := make([][]Case, k)
+	for j, i := range idx {
+		pos := j % k
+		if (j/k)%2 == 1 {
+			pos = k - 1 - pos
+		}
+		bins[pos] = append(bins[pos], cases[i])
+	}
+	var out []Case
+	for _, b := range bins {
+		out = append(out, b...)
+	}
+	return out
 }
 
 // ---- printing ---------------------------------------------------------------------------------------
@@ -1172,6 +1310,21 @@ func coqView(v View) string {
 }
 
 // a printable body (the usual hex text) is passed as text, anything else as hex of its bytes
+func coqDigest(d string) string {
+	if d == "" {
+		return "None"
+	}
+	return vgen.Some(vgen.Str(d))
+}
+
+// the body of an event as the Coq side gets it: the bytes themselves, or the stand-in of a large body
+func coqEvBody(ev Event, standIn string) string {
+	if ev.Big != nil {
+		return "(bytes_of_string " + vgen.Str(standIn) + ")"
+	}
+	return coqBody(ev.BodyHex)
+}
+
 func coqBody(hexOfBody string) string {
 	b, _ := hex.DecodeString(hexOfBody)
 	for _, x := range b {
@@ -1190,14 +1343,14 @@ func coq(c Case, o Obs) string {
 		}) + " " + vgen.Str(short(pid(c.Probe).String())) + " " + coqBools(o.Bools)
 	case "prov":
 		ev := c.Events[0]
-		return "Prov " + cstr(c.Hash) + " " + vgen.Bool(!ev.FetchFail) + " " + coqBody(ev.BodyHex) + " " +
-			coqOptTopo(o.Oracle) + " " + vgen.N(uint64(o.Code)) + " " + coqOptTopo(o.Topo)
+		return "Prov " + cstr(c.Hash) + " " + vgen.Bool(!ev.FetchFail) + " " + coqEvBody(ev, o.StandIn) + " " +
+			coqOptTopo(o.Oracle) + " " + coqDigest(o.Digest) + " " + vgen.N(uint64(o.Code)) + " " + coqOptTopo(o.Topo)
 	case "provseq":
 		calls := make([]string, len(c.Events))
 		for i, ev := range c.Events {
 			po := o.Calls[i]
-			calls[i] = "(mk_call " + cstr(ev.Hashes[0]) + " " + vgen.Bool(!ev.FetchFail) + " " + coqBody(ev.BodyHex) + " " +
-				coqOptTopo(po.Oracle) + " " + vgen.N(uint64(po.Code)) + " " + coqOptTopo(po.Topo) + ")"
+			calls[i] = "(mk_call " + cstr(ev.Hashes[0]) + " " + vgen.Bool(!ev.FetchFail) + " " + coqEvBody(ev, po.StandIn) + " " +
+				coqOptTopo(po.Oracle) + " " + coqDigest(po.Digest) + " " + vgen.N(uint64(po.Code)) + " " + coqOptTopo(po.Topo) + ")"
 		}
 		return "ProvSeq " + vgen.List(calls)
 	case "attr":
@@ -1224,8 +1377,8 @@ func coq(c Case, o Obs) string {
 	evs := make([]string, len(c.Events))
 	steps := make([]string, len(c.Events))
 	for i, ev := range c.Events {
-		evs[i] = "(mk_event " + vgen.ListOf(ev.Hashes, cstr) + " " + vgen.Bool(!ev.FetchFail) + " " + coqBody(ev.BodyHex) + " " +
-			vgen.Bool(!c.StoreBroken) + ", " + coqOptTopo(o.Steps[i].Oracle) + ")"
+		evs[i] = "(mk_event " + vgen.ListOf(ev.Hashes, cstr) + " " + vgen.Bool(!ev.FetchFail) + " " + coqEvBody(ev, o.Steps[i].StandIn) + " " +
+			vgen.Bool(!c.StoreBroken) + ", " + coqOptTopo(o.Steps[i].Oracle) + ", " + coqDigest(o.Steps[i].Digest) + ")"
 		steps[i] = "(mk_step_obs " + vgen.N(uint64(o.Steps[i].Code)) + " " + coqView(o.Steps[i].View) + ")"
 	}
 	stored := "None"
@@ -1236,6 +1389,16 @@ func coq(c Case, o Obs) string {
 }
 
 func main() {
+	if pf := os.Getenv("C13_CPUPROFILE"); pf != "" { // development aid: where the runner spends its time
+		if f, err := os.Create(pf); err == nil {
+			_ = pprof.StartCPUProfile(f)
+			defer pprof.StopCPUProfile()
+		}
+	}
+	// the large bodies make the collector run (and rescan the libp2p heap) every few cases: collect
+	// only when the heap approaches 768 MiB
+	debug.SetGCPercent(-1)
+	debug.SetMemoryLimit(3 << 28)
 	zerolog.SetGlobalLevel(zerolog.Disabled)
 	for i := 0; i < nFamily+2; i++ {
 		pids = append(pids, p2pfakes.PeerID(i))
@@ -1246,8 +1409,11 @@ func main() {
 		Gen:       gen,
 		Run:       run,
 		Coq:       coq,
-		ShardSize: 25,
+		ShardSize: shardSize,
 		Kind: func(c Case) string {
+			if hasBig(c) {
+				return c.Kind + "-large-body"
+			}
 			if c.Kind == "refresh" {
 				if c.StoreBroken {
 					return "refresh-store-broken"
@@ -1285,6 +1451,6 @@ func main() {
 			}
 			return false
 		},
-		Rule: "hosts: three real libp2p hosts built by p2p.NewHost on 127.0.0.1 (dialer, target, membership subset of the shared topology), connection result and sender of one broadcast; gate: every probe peer (8 possible members, 2 outsiders) against empty/1/3/5-peer topologies; attr: sender-claiming JSON members (From/from/FROM/... x string/number/null/object) before or after the real fields; catalogue (every run, complete): about 270 plaintexts under the ciphertext's own hash whose validity the reference parser decides - threshold texts around 0 / 2^31 / 2^63 / 2^64 in decimal, hex, octal, binary, with signs, underscores, blanks, exponents, non-ASCII digits, as JSON number / null / bool / array / object, missing, duplicated, differently-cased or escaped key; threshold above / equal to the number of peers; peer lists empty / null / missing / of wrong JSON type, 25 malformed multiaddrs first or last in the list, null / {} / wrongly typed entries, duplicated and differently-cased members, duplicated peers, 24 peers; extra members, other member order, wrapped / nested / truncated / single-quoted documents, deep nesting (300 levels), 2 KB members; 17 kinds of bytes before and 30 after the document (blanks incl. 1 KB, BOM, NUL, \v, \f, NBSP, braces, commas, comments, JSON values, invalid UTF-8), PKCS#7-style padding of 1..16 bytes, zero padding, a second document (equal, different, invalid first / second, unterminated) - through the refresh handler in sequences of five and through the provider (quick: every third; every fifth of those with the empty start-up hash); prov and refresh: events drawn from 31 classes (a catalogue item; genuine; newline / upper-case body; wrong, upper-case, empty, truncated, padded hash; bit flips at 16-byte strides and truncations 0,1,15,16,17,31,32,33,.. with the original or the recomputed hash; another topology's ciphertext; non-hex bodies; garbage with its own hash; invalid thresholds, peer addresses, documents with correct hash; base-0 thresholds; address-less peers; several events per range; no event; fetch failure; duplicated peers), refresh sequences of 1..6 events from a random initial topology, 1 in 12 with an unwritable topology file; histories through ONE provider / handler / store / gate per sequence (half of them starting with the unchecked start-up fetch through that provider): fixed patterns (A, B, A under a foreign hash; A, B, A, B, A under a foreign hash; A, A, B, A under B's hash; rejected events in between; start-up body replayed; two adoptions then fetch failures / unusable bodies announcing earlier hashes) and random histories whose later events re-serve earlier bodies (foreign hash, another event's announced hash, another body's hash, own hash, empty hash, right-then-wrong announcements), re-announce an accepted hash with a new valid body, re-encrypt an earlier topology, change one digit of an earlier body, fail the fetch or serve an unusable body while announcing an earlier hash; provseq: 2..6 direct NetworkTopology calls through one provider over the same event kinds with the hash own / foreign / earlier / empty; 15 wrong spellings of the right hash (cut, padded, 0x / 0X prefixed, bare 0x, upper case, doubled, shifted, newline, scheme prefix, zeros) on a genuine body, through the handler and the provider; distinct = distinct input JSON; non-trivial = gate on a non-empty topology, a claimed sender, a body that decrypts to a valid topology or panics",
+		Rule: "hosts: three real libp2p hosts built by p2p.NewHost on 127.0.0.1 (dialer, target, membership subset of the shared topology), connection result and sender of one broadcast; gate: every probe peer (8 possible members, 2 outsiders) against empty/1/3/5-peer topologies; attr: sender-claiming JSON members (From/from/FROM/... x string/number/null/object) before or after the real fields; catalogue (every run, complete): about 270 plaintexts under the ciphertext's own hash whose validity the reference parser decides - threshold texts around 0 / 2^31 / 2^63 / 2^64 in decimal, hex, octal, binary, with signs, underscores, blanks, exponents, non-ASCII digits, as JSON number / null / bool / array / object, missing, duplicated, differently-cased or escaped key; threshold above / equal to the number of peers; peer lists empty / null / missing / of wrong JSON type, 25 malformed multiaddrs first or last in the list, null / {} / wrongly typed entries, duplicated and differently-cased members, duplicated peers, 24 peers; extra members, other member order, wrapped / nested / truncated / single-quoted documents, deep nesting (300 levels), 2 KB members; 17 kinds of bytes before and 30 after the document (blanks incl. 1 KB, BOM, NUL, \v, \f, NBSP, braces, commas, comments, JSON values, invalid UTF-8), PKCS#7-style padding of 1..16 bytes, zero padding, a second document (equal, different, invalid first / second, unterminated) - through the refresh handler in sequences of five and through the provider (quick: every third; every fifth of those with the empty start-up hash); prov and refresh: events drawn from 31 classes (a catalogue item; genuine; newline / upper-case body; wrong, upper-case, empty, truncated, padded hash; bit flips at 16-byte strides and truncations 0,1,15,16,17,31,32,33,.. with the original or the recomputed hash; another topology's ciphertext; non-hex bodies; garbage with its own hash; invalid thresholds, peer addresses, documents with correct hash; base-0 thresholds; address-less peers; several events per range; no event; fetch failure; duplicated peers), refresh sequences of 1..6 events from a random initial topology, 1 in 12 with an unwritable topology file; histories through ONE provider / handler / store / gate per sequence (half of them starting with the unchecked start-up fetch through that provider): fixed patterns (A, B, A under a foreign hash; A, B, A, B, A under a foreign hash; A, A, B, A under B's hash; rejected events in between; start-up body replayed; two adoptions then fetch failures / unusable bodies announcing earlier hashes) and random histories whose later events re-serve earlier bodies (foreign hash, another event's announced hash, another body's hash, own hash, empty hash, right-then-wrong announcements), re-announce an accepted hash with a new valid body, re-encrypt an earlier topology, change one digit of an earlier body, fail the fetch or serve an unusable body while announcing an earlier hash; provseq: 2..6 direct NetworkTopology calls through one provider over the same event kinds with the hash own / foreign / earlier / empty; 15 wrong spellings of the right hash (cut, padded, 0x / 0X prefixed, bare 0x, upper case, doubled, shifted, newline, scheme prefix, zeros) on a genuine body, through the handler and the provider; large / two-part bodies (big.go, every run): a complete valid ciphertext stretched (blanks after / before / inside the document, a long extra member) to end exactly on 512 B .. 16 MiB (powers of two, 5 and 10 MiB), 10^4, 10^5, 10^6 (body characters, ciphertext bytes or plaintext bytes) followed by junk hex, a second complete ciphertext, a second document / junk / blanks in the same ciphertext, one more digit, newline + second ciphertext, a non-hex footer, the first part again, a newline, nothing (15 variants, the three legitimate ones only up to 64 KiB; quick: 7 per boundary up to 64 KiB, 5 up to 1 MiB, 1-3 from 1 MiB to 16 MiB), announced hash = that of the first part / of all served / of the tail / foreign, the response handing out the first part without crossing its end in one Read, bodies above 1400 characters rebuilt from a description and shown to the kernel as stand-in + standard-library digest; 13 small two-part bodies (two ciphertexts concatenated / on two lines / blank-separated, zero bytes before / after, 16 junk bytes after, the same ciphertext twice, a URL serving another valid ciphertext from the second Get on); 14 degenerate announced topologies (0..5 peers, threshold = / > number of peers, 10^6, 2^31-1, peers listed twice), alone or re-announced after a usual one, and 4 sequences whose announced topology includes the relayer itself; distinct = distinct input JSON; non-trivial = gate on a non-empty topology, a claimed sender, a body that decrypts to a valid topology or panics",
 	})
 }
